@@ -452,6 +452,51 @@ fn query_storage_checks(ev: &mut Ev) {
             }
         }
     }
+    // broadcast (zero-stride) query views against their materialised copies: scalars, rows and
+    // columns repeated; mesh grids whose xs and ys repeat along *different* axes
+    {
+        use vh::ndarray::{Array3, Axis};
+        use vh::ndarray_interp::interp2d::Interp2D;
+        let mut rng = Rng::derive(13, "C13-broadcast-queries", &[0]);
+        for round in 0..40u64 {
+            let (nx, ny) = (3 + rng.below(4), 3 + rng.below(3));
+            let ax: Array1<f64> = (0..nx).map(|i| i as f64 * 1.5 + if i > 0 { rng.f01() } else { 0.0 }).collect();
+            let ay: Array1<f64> = (0..ny).map(|i| -2.0 + i as f64 * 0.75 + if i > 0 { rng.f01() * 0.5 } else { 0.0 }).collect();
+            let grid: Array3<f64> = Array3::from_shape_fn((nx, ny, 2), |_| rng.f01() * 8.0 - 4.0);
+            let b2 = Interp2D::builder(grid.clone()).x(ax.clone()).y(ay.clone()).build().unwrap();
+            let b1 = Interp1D::builder(grid.clone()).x(ax.clone()).build().unwrap();
+            let (mx, my) = (2 + rng.below(3), 2 + rng.below(4));
+            let qx: Array1<f64> = (0..mx).map(|_| ax[0] + rng.f01() * (ax[nx - 1] - ax[0])).collect();
+            let qy: Array1<f64> = (0..my).map(|_| ay[0] + rng.f01() * (ay[ny - 1] - ay[0])).collect();
+            // mesh grid (my x mx): xs repeats along axis 0, ys along axis 1
+            let xs = qx.broadcast((my, mx)).unwrap();
+            let ycol = qy.view().insert_axis(Axis(1));
+            let ys = ycol.broadcast((my, mx)).unwrap();
+            let mut cmp = |name: &str, a: Vec<u64>, b: Vec<u64>, ev: &mut Ev| {
+                ev.add("broadcast_query_comparisons", 1);
+                if a != b {
+                    ev.violation(
+                        "C13:layout-dependent-result",
+                        &format!("{name}: broadcast query views give {:x?}, their owned copies {:x?}", &a[..a.len().min(8)], &b[..b.len().min(8)]),
+                        9_400_000 + round,
+                        J::obj().set("round", round).set("variant", name),
+                    );
+                }
+            };
+            let bits = |a: vh::ndarray::ArrayD<f64>| -> Vec<u64> { a.iter().map(|v| v.to_bits()).collect() };
+            cmp("Interp2D mesh grid (Ix2)", bits(b2.interp_array(&xs, &ys).unwrap().into_dyn()), bits(b2.interp_array(&xs.to_owned(), &ys.to_owned()).unwrap().into_dyn()), ev);
+            cmp("Interp2D mesh grid (IxDyn)", bits(b2.interp_array(&xs.into_dyn(), &ys.into_dyn()).unwrap()), bits(b2.interp_array(&xs.to_owned().into_dyn(), &ys.to_owned().into_dyn()).unwrap()), ev);
+            cmp("Interp2D mesh grid transposed roles", bits(b2.interp_array(&xs.t(), &ys.t()).unwrap().into_dyn()), bits(b2.interp_array(&xs.t().to_owned(), &ys.t().to_owned()).unwrap().into_dyn()), ev);
+            let x3 = qx.broadcast((2, my, mx)).unwrap();
+            let y3 = ycol.broadcast((2, my, mx)).unwrap();
+            cmp("Interp2D mesh grid repeated (Ix3)", bits(b2.interp_array(&x3, &y3).unwrap().into_dyn()), bits(b2.interp_array(&x3.to_owned(), &y3.to_owned()).unwrap().into_dyn()), ev);
+            let sx = vh::ndarray::arr0(qx[0]);
+            let sxb = sx.broadcast(my).unwrap();
+            cmp("Interp2D scalar x against an array of y (Ix1)", bits(b2.interp_array(&sxb, &qy).unwrap().into_dyn()), bits(b2.interp_array(&sxb.to_owned(), &qy).unwrap().into_dyn()), ev);
+            cmp("Interp1D row repeated (Ix2)", bits(b1.interp_array(&xs).unwrap().into_dyn()), bits(b1.interp_array(&xs.to_owned()).unwrap().into_dyn()), ev);
+            cmp("Interp1D scalar repeated (Ix1)", bits(b1.interp_array(&sxb).unwrap().into_dyn()), bits(b1.interp_array(&sxb.to_owned()).unwrap().into_dyn()), ev);
+        }
+    }
     // rank-1 static (fast path) with every storage kind
     let q1: Array1<f64> = array![0.5, 2.5, 3.0, 0.0];
     let b1 = interp.interp_array(&q1).unwrap();
